@@ -244,7 +244,7 @@ impl Prop for C01 {
         "C01"
     }
     fn rule(&self) -> String {
-        "module sets of the grammar G by feature deviation from a one-module AUTOMATIC-TAGS default-config skeleton: level 1 = every feature alone (37 feature modules; every SEQUENCE/SET/CHOICE with <=1 component and, thorough, <=2 components over the 14-type alphabet × optionality; every container chain to depth 3 incl. recursion; every value notation and DEFAULT form of C07's table (one per notation×feature); integer bound pairs over the 9-point boundary subset as component + DEFAULT; 2- and 3-module import sets with differing tagging/extensibility defaults), level 2 = each feature module × each RasnConfig deviation (no_std, from-impls, wildcard imports, custom imports, extra derives, non-derive attributes, derives listed twice; thorough: all pairs of flags) and × the four tagging defaults where X.680 tag distinctness is kept. Only compilations returning Ok without warnings are judged: the text must parse (syn) and `cargo check` of a crate whose only dependencies are rasn 0.27 and lazy_static must emit no error attributed to the case (16 crates, one `cargo check --workspace`). Non-trivial: judged by rustc.".into()
+        "module sets of the grammar G by feature deviation from a one-module AUTOMATIC-TAGS default-config skeleton: level 1 = every feature alone (38 feature modules; every SEQUENCE/SET/CHOICE with <=1 component and, thorough, <=2 components over the 14-type alphabet × optionality; every container chain to depth 3 incl. recursion; every value notation and DEFAULT form of C07's table (one per notation×feature); integer bound pairs over the 9-point boundary subset as component + DEFAULT; 2- and 3-module import sets with differing tagging/extensibility defaults), level 2 = each feature module × each RasnConfig deviation (no_std, from-impls, wildcard imports, custom imports, extra derives, non-derive attributes, derives listed twice; thorough: all pairs of flags) and × the four tagging defaults where X.680 tag distinctness is kept. Only compilations returning Ok without warnings are judged: the text must parse (syn) and `cargo check` of a crate whose only dependencies are rasn 0.27 and lazy_static must emit no error attributed to the case (16 crates, one `cargo check --workspace`). Non-trivial: judged by rustc.".into()
     }
     fn assumptions(&self) -> Vec<String> {
         vec!["rustc 1.95 + rasn 0.27.0 + rasn-derive are the definition of `type-checks against rasn`".into(), "identical generated texts are type-checked once".into()]
